@@ -304,7 +304,7 @@ func c19Worker(args []string) int {
 		Stats map[string]int `json:"stats"`
 	}
 	res := result{Stats: map[string]int{}}
-	seen := map[string]bool{}
+	seenAt := map[string]int{}
 	buf := make([]byte, L)
 	copy(buf, prefix)
 	var rec func(i int) bool
@@ -318,9 +318,11 @@ func c19Worker(args []string) int {
 			res.Execs++
 			res.Steps += L
 			for _, v := range vs {
-				if !seen[v.Sig] {
-					seen[v.Sig] = true
+				if j, ok := seenAt[v.Sig]; !ok {
+					seenAt[v.Sig] = len(res.Viols)
 					res.Viols = append(res.Viols, v)
+				} else if len(v.Events) < len(res.Viols[j].Events) {
+					res.Viols[j] = v
 				}
 			}
 			return true
@@ -393,6 +395,7 @@ func c19(r *ev.Result, tier string) {
 	}
 	gen("")
 	var mu sync.Mutex
+	best := map[string]c19Viol{}
 	parallel(len(prefixes), func(i int) {
 		out, err := runCttyWorker("c19w", fmt.Sprint(L), prefixes[i], base)
 		var res struct {
@@ -409,10 +412,17 @@ func c19(r *ev.Result, tier string) {
 		r.Traces += res.Execs
 		r.Transitions += res.Steps
 		mu.Unlock()
+		mu.Lock()
 		for _, v := range res.Viols {
-			r.Violate(ev.Violation{Signature: v.Sig, What: v.What, Kind: "c19", Replay: map[string]string{"events": v.Events}})
+			if b, ok := best[v.Sig]; !ok || len(v.Events) < len(b.Events) || (len(v.Events) == len(b.Events) && v.Events < b.Events) {
+				best[v.Sig] = v
+			}
 		}
+		mu.Unlock()
 	})
+	for _, v := range best {
+		r.Violate(ev.Violation{Signature: v.Sig, What: v.What, Kind: "c19", Replay: map[string]string{"events": v.Events}})
+	}
 	n := 0
 	for k, p := 0, 1; k <= L; k, p = k+1, p*len(c19Alphabet) {
 		n += p
